@@ -250,9 +250,17 @@ def eval_root(case):
                 out.append({'kind': 'set-disagrees', 'op': ('list-after',) + tuple(op), 'got': full if isinstance(full, str) else full[:6],
                             'expected': E[:6], 'members': {k: list(v) for k, v in st.members.items()}, 'cache': cache})
         c = getattr(st.set, '_cache', None)
-        if cache and c is not None and list(c) != E[:len(c)]:
-            out.append({'kind': 'stale-cache', 'op': op, 'cache_len': len(c),
-                        'members': {k: list(v) for k, v in st.members.items()}})
+        if not out and cache and c is not None and list(c) != E[:len(c)]:
+            # A memo that is not a prefix of the expected listing is internal state: it only triggers one more
+            # *observable* question on a rebuilt object (the full listing), and only a wrong answer to that is reported.
+            st3 = fresh()
+            for o in tuple(hist) + (op,):
+                do_step(st3, o)
+            seen = do_step(st3, ('list',))
+            E3 = st3.expected()
+            if seen != ('ok', E3):
+                out.append({'kind': 'set-disagrees', 'op': ('list-after',) + tuple(op), 'got': seen, 'expected': ('ok', E3[:6]),
+                            'members': {k: list(v) for k, v in st.members.items()}, 'cache': cache})
         return out
 
     def canon(st):
